@@ -718,6 +718,10 @@ def host_getattr(I, obj, name):
         return getattr(obj, name)
     if isinstance(obj, range) and name in ("start", "stop", "step"):
         return getattr(obj, name)
+    if isinstance(obj, Sym) and obj.kind in ("real", "int") and name == "is_integer":
+        # float.is_integer() / int.is_integer() on a symbolic number (A-REAL: floats are mathematical reals)
+        t = obj.t
+        return native(lambda I_, a, k: True if obj.kind == "int" else ops.mk(z3.IsInt(t)))
     if isinstance(obj, (int, float)) and name in ("real", "imag", "is_integer", "bit_length"):
         if name == "real":
             return obj
